@@ -9,7 +9,7 @@ from vlib import ToolError
 
 def run(ctx):
     thorough = ctx.tier == "thorough"
-    ctx.rule = ("(operation, loss kind, loss point k, segmentation): thresholds +-1 and every 4th/8th byte (quick) or every byte (thorough) x {eof, err, werr, eof/err with writes still accepted} for 18 standard operations; "
+    ctx.rule = ("(operation, loss kind, loss point k, segmentation): thresholds +-1 and every 4th/8th byte (quick) or every byte (thorough) x {eof, err, an error that reports itself as a timeout, werr, eof/err with writes still accepted} for 18 standard operations; "
                 "non-trivial = k below completion; distinct by tuple")
     ctx.assumptions += ["loss kinds: Read returns io.EOF / a persistent non-EOF error from byte k on; werr: Write fails from byte k on while reads stay silent",
                         "an error must arrive within 1 s although the configured timeout is 4 s; the session is not closed afterwards (closing is C07)"]
@@ -25,8 +25,9 @@ def run(ctx):
         return
     ops, text = faultlib.export_ops(ctx)
     scns = []
-    for fault in ("eof", "err", "werr", "eofhalf", "errhalf"):
-        mc_bad, r, pred = faultlib.model(ctx, fault.replace("half", ""), text)
+    # "errtmo": a persistent read error that calls itself a timeout (what a dead peer looks like once the kernel gave up)
+    for fault in ("eof", "err", "werr", "eofhalf", "errhalf", "errtmo"):
+        mc_bad, r, pred = faultlib.model(ctx, fault.replace("half", "").replace("tmo", ""), text)
         if mc_bad:
             ctx.violation("C06:model:Stall-invariant:" + fault, "Stall.tla (%s): %s" % (fault, r["stdout"][-1500:]), {"kind": "model", "fault": fault})
         for op in ops:
@@ -52,7 +53,7 @@ def run(ctx):
         pass
     # werr runs that legitimately wait out a (short) timeout: give them a short connection timeout? they use 4 s; keep them few
     if not thorough:
-        for fk, stride in (("werr", 4), ("eofhalf", 3), ("errhalf", 3)):
+        for fk, stride in (("werr", 4), ("eofhalf", 3), ("errhalf", 3), ("errtmo", 3)):
             sub = [s for s in scns if s["fault"] == fk]
             keep = set(id(s) for s in sub[::stride]) | set(id(s) for s in sub if s["op"].endswith(".stale") or s["k"] == 0)
             scns = [s for s in scns if s["fault"] != fk or id(s) in keep]
